@@ -341,8 +341,11 @@ def main():
                 if not hit or hit[0]['status'] != 'FAILURE':
                     inconcl.append('%s: vacuity guard: canary "%s" did not fire (contradictory precondition or stub)' % (j['id'], want))
             canaries += len(can)
-            if any(o['kind'] == 'no-body' for o in obs):
-                inconcl.append('%s: call to a function without body or contract: %s' % (j['id'], [o['desc'] for o in obs if o['kind'] == 'no-body'][:3]))
+            # a call of a function without body or contract matters only where it can be reached (the call-site
+            # assertion fails); a call proved unreachable under the contract's preconditions is harmless
+            nb = [o for o in obs if o['kind'] == 'no-body' and o['status'] != 'SUCCESS']
+            if nb:
+                inconcl.append('%s: reachable call to a function without body or contract: %s' % (j['id'], [o['desc'] for o in nb][:3]))
             if any(o['kind'] == 'model-limit' and o['status'] != 'SUCCESS' for o in obs):
                 inconcl.append('%s: exception model limit reached' % j['id'])
             bad = [o for o in obs if o['kind'] == 'spec-safety' and o['status'] != 'SUCCESS']
